@@ -397,6 +397,19 @@ fn devopt_exe() -> Option<PathBuf> {
 
 /// Replay of one case in the build profile it was found in.
 fn replay_any<C: Check>(c: &C, cli: &Cli, case: &Json) -> Vec<Violation> {
+    if case.get("kind").and_then(|v| v.as_str()) == Some("stall") {
+        // the exploration of that tier and seed once more; the watchdog reports and exits if it stalls again
+        let mut cli2 = cli.clone();
+        if case.get("tier").and_then(|v| v.as_str()) == Some("thorough") {
+            cli2.tier = Tier::Thorough;
+        }
+        if let Some(s) = case.get("seed").and_then(|v| v.as_u64()) {
+            cli2.seed = s;
+        }
+        let mut st = Stats::new();
+        c.explore(&cli2, &mut st);
+        return std::mem::take(&mut st.violations);
+    }
     let wants_devopt = case.get("build_profile").and_then(|v| v.as_str()) == Some("devopt");
     if wants_devopt && !is_devopt_build() {
         match devopt_exe() {
@@ -510,6 +523,7 @@ pub fn run_main<C: Check>(c: C) -> ! {
     crate::quiet::init();
     crate::pan::install_hook();
     let id = c.id();
+    start_stall_watchdog(id, cli.worker.is_some(), cli.tier.name(), cli.seed, cli.root.clone());
 
     if let Some(w) = &cli.worker {
         match w.first().map(|s| s.as_str()) {
@@ -933,6 +947,8 @@ pub fn death_to_violation(id: &str, case: &Json, c: &crate::child::ChildOutcome,
         return Err(format!("single case hit the wall-clock back-stop ({})", c.describe()));
     } else if let Some(sig) = c.signal {
         ("abnormal-termination".to_string(), format!("signal={}", sig))
+    } else if c.exit == Some(STALL_EXIT) {
+        ("does-not-return".to_string(), "stalled-without-using-cpu-alone-in-a-child".to_string())
     } else {
         return Err(format!("single-case child failed: {}", c.describe()));
     };
@@ -1102,4 +1118,132 @@ pub fn child_shards(_cli: &Cli, id: &str, n: usize, st: &mut Stats, cfg: &ChildS
     for r in results {
         st.merge(r);
     }
+}
+
+// ---------------------------------------------------------------------------------------------
+// Process-stall watchdog: a library call that blocks for ever (a lock taken twice, threads that
+// wait for each other) burns no CPU, so no CPU limit ever fires. Every binary started through
+// `run_main` runs this monitor: when, over STALL_SAMPLES consecutive one-second samples, every
+// other thread of the process is asleep (none runnable, none in disk wait), the process used
+// (almost) no CPU, and it has no child process to wait for, the process is stalled. Load cannot
+// produce that verdict (a starved thread is runnable, state R); only waiting for nothing can.
+// ---------------------------------------------------------------------------------------------
+
+const STALL_SAMPLES: u32 = 25;
+/// exit code of a worker child that found itself stalled
+pub const STALL_EXIT: i32 = 86;
+
+static STALL_PAUSED: std::sync::atomic::AtomicBool = std::sync::atomic::AtomicBool::new(false);
+
+/// Phases in which the process legitimately sleeps without children (none so far) can pause the watchdog.
+pub fn stall_watchdog_pause(p: bool) {
+    STALL_PAUSED.store(p, std::sync::atomic::Ordering::SeqCst);
+}
+
+fn stall_thread_states(me: i64) -> (usize, usize) {
+    let (mut n, mut sleeping) = (0, 0);
+    if let Ok(rd) = std::fs::read_dir("/proc/self/task") {
+        for e in rd.flatten() {
+            let tid: i64 = e.file_name().to_string_lossy().parse().unwrap_or(-1);
+            if tid == me {
+                continue;
+            }
+            if let Ok(s) = std::fs::read_to_string(e.path().join("stat")) {
+                if let Some(p) = s.rfind(')') {
+                    n += 1;
+                    if s[p + 1..].trim_start().starts_with('S') {
+                        sleeping += 1;
+                    }
+                }
+            }
+        }
+    }
+    (n, sleeping)
+}
+
+fn stall_has_children() -> bool {
+    let me = std::process::id().to_string();
+    if let Ok(rd) = std::fs::read_dir("/proc") {
+        for e in rd.flatten() {
+            let name = e.file_name();
+            let name = name.to_string_lossy();
+            if !name.bytes().all(|b| b.is_ascii_digit()) {
+                continue;
+            }
+            if let Ok(s) = std::fs::read_to_string(e.path().join("stat")) {
+                if let Some(p) = s.rfind(')') {
+                    // after ") " come: state ppid ...
+                    let mut it = s[p + 1..].split_whitespace();
+                    let _state = it.next();
+                    if it.next() == Some(me.as_str()) {
+                        return true;
+                    }
+                }
+            }
+        }
+    }
+    false
+}
+
+fn stall_cpu_us() -> u64 {
+    let mut ru: libc::rusage = unsafe { std::mem::zeroed() };
+    unsafe { libc::getrusage(libc::RUSAGE_SELF, &mut ru) };
+    let tv = |t: libc::timeval| t.tv_sec as u64 * 1_000_000 + t.tv_usec as u64;
+    tv(ru.ru_utime) + tv(ru.ru_stime)
+}
+
+/// Started by `run_main`. `worker`: the process is a `--worker` child (it then exits with
+/// STALL_EXIT and lets the parent identify the case); otherwise it reports the violation itself.
+fn start_stall_watchdog(id: &'static str, worker: bool, tier: &'static str, seed: u64, root: PathBuf) {
+    let _ = std::thread::Builder::new().name("stall-watchdog".into()).spawn(move || {
+        let me = unsafe { libc::syscall(libc::SYS_gettid) as i64 };
+        let mut idle = 0u32;
+        let mut cpu0 = stall_cpu_us();
+        loop {
+            std::thread::sleep(std::time::Duration::from_secs(1));
+            let (n, sleeping) = stall_thread_states(me);
+            let quiet = n > 0 && n == sleeping && !STALL_PAUSED.load(std::sync::atomic::Ordering::SeqCst);
+            if !quiet {
+                idle = 0;
+                cpu0 = stall_cpu_us();
+                continue;
+            }
+            idle += 1;
+            if idle < STALL_SAMPLES {
+                continue;
+            }
+            let used = stall_cpu_us() - cpu0;
+            if used > 100_000 || stall_has_children() {
+                idle = 0;
+                cpu0 = stall_cpu_us();
+                continue;
+            }
+            // stalled
+            let detail = format!(
+                "the process made no progress for {} s: all {} threads asleep, {} us of CPU used, no child process to wait for (a call into the library never returned and burns no CPU)",
+                STALL_SAMPLES, n, used
+            );
+            if worker {
+                crate::out!("STALL {}", detail);
+                std::process::exit(STALL_EXIT);
+            }
+            let dir = root.join("replays").join(id);
+            let _ = std::fs::create_dir_all(&dir);
+            let path = dir.join(format!("stall-{}-{}.json", tier, seed));
+            let j = json!({
+                "property": id, "tier": tier, "seed": seed,
+                "sig": format!("{}|does-not-return|process-stalled-without-using-cpu", id),
+                "clause": "does-not-return",
+                "detail": detail,
+                "case": {"kind": "stall", "tier": tier, "seed": seed, "replay_note": "re-runs the exploration of this tier and seed under the same watchdog"},
+            });
+            let _ = std::fs::write(&path, serde_json::to_string_pretty(&j).unwrap_or_default());
+            crate::out!("VIOLATION property={} replay={}", id, path.display());
+            crate::out!("  sig: {}|does-not-return|process-stalled-without-using-cpu", id);
+            crate::out!("  clause: does-not-return");
+            crate::out!("  detail: {}", detail);
+            crate::out!("SUMMARY property={} tier={} seed={} verdict=violated (stalled; statistics of the interrupted run are lost)", id, tier, seed);
+            std::process::exit(1);
+        }
+    });
 }
